@@ -14,7 +14,6 @@
 """
 from __future__ import annotations
 
-import gc
 import operator
 import warnings
 
@@ -65,12 +64,6 @@ def _len_series(df):
 
 
 def _build_case(fspec, clear_div):
-    if fspec.get("nrows", 1) == 0:
-        # dask defect outside these properties (tokens, C12): two ZERO-ROW pandas frames with the same
-        # column labels but different per-column dtypes get the same token, so from_pandas returns the
-        # still-alive expression of the earlier frame.  Drop our reference to the previous case first.
-        _CACHE.pop("case", None)
-        gc.collect()
     c = Case()
     c.spec = fspec
     c.pdf = F.build_pdf(fspec)
@@ -79,9 +72,13 @@ def _build_case(fspec, clear_div):
         ddf = ddf.clear_divisions()
     c.ddf = ddf
     sig = dict(op="identity", how=fspec.get("partition", {}).get("how"), zero_rows=len(c.pdf) == 0)
-    if len(c.pdf) == 0 and list(ddf.dtypes) != list(c.pdf.dtypes):
+    if list(ddf.dtypes) != list(c.pdf.dtypes):
+        # dask defect outside these properties (tokens, C12): tokenize(DataFrame) ignores which column lives
+        # in which consolidated block, so two frames with equal block arrays but different per-column dtypes
+        # (always the case for zero rows) collide and from_pandas/from_map hands back the still-alive
+        # expression - i.e. the DATA - of the earlier frame.  Reported with its own symptom.
         raise Violation(
-            f"from_pandas of a zero-row frame has the dtypes of another frame: {list(ddf.dtypes)} vs {list(c.pdf.dtypes)}",
+            f"from_pandas returned the expression of another frame (token collision): lazy dtypes {list(ddf.dtypes)} vs pandas {list(c.pdf.dtypes)}",
             "from_pandas-token-collision",
             **sig,
         )
@@ -486,11 +483,11 @@ def gen_num(draw, schema, ctx, depth=0):
     if ctx.get("allow_root") and ctx.get("pos", 0) > 0 and cols_of(ctx["schema0"], NUMPY_NUM):
         choices += ["root"]
     if cols_of(schema, STRS):
-        choices += ["strlen"]
+        choices += ["strlen", "strlen"]
     if cols_of(schema, ("dt",)):
-        choices += ["dtprop"]
+        choices += ["dtprop", "dtprop", "dtprop"]
     if cols_of(schema, ("cat",)):
-        choices += ["codes"]
+        choices += ["codes", "codes", "codes"]
     if not choices:
         return None
     if depth >= 2:
@@ -740,11 +737,11 @@ def gen_any(draw, schema, ctx):
     """-> (expr, cls)"""
     kinds = ["num", "num", "bool"]
     if cols_of(schema, STRS):
-        kinds += ["str", "str", "str"]
+        kinds += ["str", "str", "str", "str"]
     if cols_of(schema, ("dt",)):
-        kinds += ["dt", "dt"]
+        kinds += ["dt", "dt", "dt"]
     if cols_of(schema, ("cat", "ucat")):
-        kinds += ["cat", "cat"]
+        kinds += ["cat", "cat", "cat"]
     for _ in range(3):
         k = _sample(draw, kinds)
         if k == "num":
@@ -774,7 +771,7 @@ def gen_frame_op(draw, schema, ctx, last):
     d = dict(schema)
     nums = cols_of(schema, NUM)
     npnums = cols_of(schema, NUMPY_NUM)
-    choices = ["project", "filter", "filter", "assign", "assign", "assign", "rename", "round", "astype", "fillna", "isin"]
+    choices = ["project", "filter", "filter", "assign", "assign", "assign", "assign", "rename", "round", "astype", "fillna", "isin"]
     if nums:
         choices += ["frame_bin", "frame_bin", "where", "clip", "abs", "frame_frame"]
     if npnums:
@@ -782,7 +779,7 @@ def gen_frame_op(draw, schema, ctx, last):
         if last:
             choices += ["apply_rows"]
     if last:
-        choices += ["expr", "expr", "expr", "getcol"]
+        choices += ["expr", "expr", "expr", "expr", "expr", "getcol"]
     k = _sample(draw, choices)
 
     def subset(cs, min_size=1):
